@@ -18,6 +18,7 @@
 package compressor
 
 import (
+	"errors"
 	"fmt"
 
 	"github.com/pierrec/lz4/v4"
@@ -44,12 +45,17 @@ func (l *Lz4) Compress(data []byte) ([]byte, error) {
 }
 
 func (l *Lz4) Decompress(in []byte) ([]byte, error) {
-	out := make([]byte, 100*len(in))
-	n, err := lz4.UncompressBlock(in, out)
-	if err != nil {
-		return nil, err
+	// the block format does not carry the uncompressed size: grow the buffer until the data fits
+	for size := 16*len(in) + 64; ; size *= 4 {
+		out := make([]byte, size)
+		n, err := lz4.UncompressBlock(in, out)
+		if err == nil {
+			return out[:n], nil
+		}
+		if !errors.Is(err, lz4.ErrInvalidSourceShortBuffer) || size > 1<<30 {
+			return nil, err
+		}
 	}
-	return out[:n], nil
 }
 
 func (l *Lz4) GetCompressorType() CompressorType {
